@@ -7,6 +7,8 @@ require (
 	github.com/blevesearch/bleve/v2 v2.0.0-00010101000000-000000000000
 	github.com/blevesearch/bleve_index_api v1.4.0
 	github.com/blevesearch/upsidedown_store_api v1.0.2
+	github.com/couchbase/moss v0.2.0
+	go.etcd.io/bbolt v1.4.0
 )
 
 require (
@@ -32,11 +34,9 @@ require (
 	github.com/blevesearch/zapx/v16 v16.3.4 // indirect
 	github.com/blevesearch/zapx/v17 v17.2.0 // indirect
 	github.com/couchbase/ghistogram v0.1.0 // indirect
-	github.com/couchbase/moss v0.2.0 // indirect
 	github.com/golang/snappy v1.0.0 // indirect
 	github.com/json-iterator/go v0.0.0-20171115153421-f7279a603ede // indirect
 	github.com/mschoch/smat v0.2.0 // indirect
-	go.etcd.io/bbolt v1.4.0 // indirect
 	golang.org/x/sys v0.45.0 // indirect
 	golang.org/x/text v0.37.0 // indirect
 	google.golang.org/protobuf v1.36.6 // indirect
